@@ -8,6 +8,7 @@
 package main
 
 import (
+	"bufio"
 	"bytes"
 	"fmt"
 	"io"
@@ -234,10 +235,41 @@ func offsetSources(data []byte, want result, label string) {
 	}
 }
 
+// wrapped: sources that deliver half of every request, and buffered readers of
+// several sizes over whole, half and seven-byte sources.
+func wrapped(data []byte, want result, label string) {
+	try := func(kind string, src io.Reader) {
+		var s *smf.SMF
+		var err error
+		c := engine.Catch(func() { s, err = smf.ReadFrom(src) })
+		got := summarize(s, err, c)
+		ctx.Eval()
+		if reflect.DeepEqual(got, want) {
+			return
+		}
+		sig := "wrapped-source:" + kind + ":" + want.kind + "->" + got.kind
+		if got.kind == "panic" {
+			sig = got.sig + ":wrapped-source:" + kind
+		}
+		if ctx.SigCount(sig) < 10 {
+			ctx.Violation(sig, map[string]interface{}{"kind": "wrapped", "file": engine.Hex(data), "family": label,
+				"what": fmt.Sprintf("reading from memory gives %s, reading through %s gives %s", want.kind, kind, got.kind)})
+		}
+	}
+	try("half-reader", &faultio.FragReader{Data: data, Half: true})
+	try("half-reader+eof-with-data", &faultio.FragReader{Data: data, Half: true, EOFWithData: true})
+	for _, size := range []int{16, 17, 64, 4096} {
+		try(fmt.Sprintf("bufio-%d", size), bufio.NewReaderSize(bytes.NewReader(data), size))
+		try(fmt.Sprintf("bufio-%d-over-half-reader", size), bufio.NewReaderSize(&faultio.FragReader{Data: data, Half: true}, size))
+		try(fmt.Sprintf("bufio-%d-over-7-byte-reader", size), bufio.NewReaderSize(&faultio.FragReader{Data: data, MaxPerCall: 7}, size))
+	}
+}
+
 func fragmentations(data []byte, label string, pairs, triples bool) {
 	want := readMem(data)
 	ctx.Add("files", 1)
 	zeroReads(data, want, label)
+	wrapped(data, want, label)
 	if len(data) < 60000 {
 		pipeSource(data, want, label)
 		offsetSources(data, want, label)
@@ -288,6 +320,21 @@ func family() (files [][]byte, names []string) {
 		add([]smfgen.Timed{{T: &toks[0], D: &dls[1]}, {T: &toks[i], D: &dls[2]}}, base, "2:"+toks[i].Name)
 		for k := 0; k < len(toks); k += 5 {
 			add([]smfgen.Timed{{T: &toks[i], D: &dls[0]}, {T: &toks[k], D: &dls[0]}, {T: &toks[1], D: &dls[0]}}, base, "3:"+toks[i].Name+","+toks[k].Name)
+		}
+	}
+	// two events with payloads of different lengths after one another (a reader
+	// that keeps a buffer between events has something left over from the first)
+	var pay []int
+	for i := range toks {
+		if !toks[i].Channel {
+			pay = append(pay, i)
+		}
+	}
+	for _, a := range pay {
+		for _, b := range pay {
+			if a != b && (len(toks[a].Raw) > 40) != (len(toks[b].Raw) > 40) {
+				add([]smfgen.Timed{{T: &toks[a], D: &dls[0]}, {T: &toks[b], D: &dls[1]}, {T: &toks[0], D: &dls[0]}}, base, "pair:"+toks[a].Name+","+toks[b].Name)
+			}
 		}
 	}
 	shapes := smfgen.Shapes(false)
@@ -455,6 +502,10 @@ func replay() {
 		}
 	}
 	want := readMem(data)
+	if m["kind"] == "wrapped" {
+		wrapped(data, want, "replay")
+		ctx.Finish("replay")
+	}
 	if m["kind"] == "offset-source" {
 		offsetSources(data, want, "replay")
 		ctx.Finish("replay")
